@@ -20,7 +20,9 @@ xsf.py (`init_spectral_lines`), magnetic_ff.py, cromermann.py + xsf/f0_WaasKirf.
    `init(table, reload=True)` of the four per-table loaders: the full sweep again;
 8. the alias `M` / `M_Q` of every charge state (the <j0> set where one exists, no attribute where the
    table has none – Ce3+), and `sweep_f0_reused`: f0 of every entry with ONE array object evaluated,
-   edited in place (`Q += step`, `Q[:] = ...`) and evaluated again, against the Decimal formula.
+   edited in place (`Q += step`, `Q[:] = ...`) and evaluated again, against the Decimal formula;
+9. `sweep_charge_lookup` (real code only): every legitimate ion charge of every element subscripted on
+   `magnetic_ff` (element and ion routes, `.get`, `in`), then the charge states re-enumerated.
 """
 from __future__ import annotations
 
@@ -1081,6 +1083,62 @@ def reloaded_table(mods, seed):
     return t
 
 
+def sweep_charge_lookup(run: Run, label, tbl, exp, symbols, extra=None):
+    """real code only: every legitimate ion charge of every element (and 0) is looked up on `magnetic_ff` by
+    subscript, through the element and through the ion (`ion.magnetic_ff[ion.charge]`, the documented idiom), by
+    `.get` and by `in`.  A charge state of the embedded table is served its own record; a charge with no entry
+    yields no form factor (KeyError / None / no attribute, and never an object with coefficients).  Afterwards the
+    charge states every element enumerates are, again, exactly those of the embedded table."""
+    extra = extra or {}
+    for el in tbl:
+        z = el.number
+        charges = sorted(q for (zz, q) in exp.mag if zz == z)
+        legit = sorted(set(P.observe(lambda: list(el.ions)) if not isinstance(P.observe(lambda: list(el.ions)), str) else []) | {0})
+        for q in legit:
+            has = q in charges
+            run.count(key=(label, "mag-lookup", z, q), nontrivial=bool(charges), tag="lookup:%s:magnetic_ff:%s" % (label, "entry" if has else "no-entry"),
+                      sample="%s %s.ion[%d].magnetic_ff[%d]" % (label, symbols[z], q, q) if (z, q) in ((26, 6), (26, 2)) else None)
+            atom = el if q == 0 else P.observe(lambda: el.ion[q])
+            if isinstance(atom, str):
+                continue
+            routes = [("%s.magnetic_ff[%d]" % (symbols[z], q), lambda: el.magnetic_ff[q]),
+                      ("%s.ion[%d].magnetic_ff[ion.charge]" % (symbols[z], q), lambda: atom.magnetic_ff[atom.charge if q else 0]),
+                      ("%s.magnetic_ff.get(%d)" % (symbols[z], q), lambda: el.magnetic_ff.get(q)),
+                      ("%d in %s.magnetic_ff" % (q, symbols[z]), lambda: el.magnetic_ff[q] if q in el.magnetic_ff else None)]
+            for how, fn in routes:
+                try:
+                    rec = fn()
+                except (KeyError, AttributeError):
+                    rec = None
+                except Exception as e:  # noqa
+                    run.violation("%s raises %s: %s" % (how, type(e).__name__, str(e)[:100]),
+                                  dict(extra, table=label, z=z, q=q, kind="mag-lookup", route=how), observable="magnetic_ff lookup", z=z, q=q)
+                    continue
+                if has:
+                    want = P.observe(lambda: dict(el.magnetic_ff.items())[q])
+                    if rec is None or rec is not want:
+                        run.violation("%s does not serve the record of that charge state" % how,
+                                      dict(extra, table=label, z=z, q=q, kind="mag-lookup", route=how, got=repr(rec)[:80]),
+                                      observable="magnetic_ff lookup", z=z, q=q)
+                elif rec is not None and any(hasattr(rec, jn) for jn in JNS + ["M"]):
+                    run.violation("%s serves coefficients for a charge state that has no entry in the embedded table" % how,
+                                  dict(extra, table=label, z=z, q=q, kind="mag-lookup", route=how,
+                                       got={jn: repr(getattr(rec, jn))[:60] for jn in JNS + ["M"] if hasattr(rec, jn)}),
+                                  observable="magnetic_ff lookup", z=z, q=q)
+        # what the element enumerates afterwards
+        ff = P.observe(lambda: el.magnetic_ff)
+        now = "X" if isinstance(ff, str) else P.observe(lambda: sorted(ff))
+        if (charges and now != charges) or (not charges and now not in ("X", None)):
+            run.violation("after its ion charges were looked up on magnetic_ff, %s lists other charge states than the embedded table"
+                          % symbols[z],
+                          dict(extra, table=label, z=z, kind="mag-lookup", expected=charges or "no attribute", got=now,
+                               looked_up=legit), observable="magnetic_ff charges", z=z)
+        elif charges and P.observe(lambda: len(ff)) != len(charges):
+            run.violation("len(%s.magnetic_ff) is not the number of charge states of the embedded table" % symbols[z],
+                          dict(extra, table=label, z=z, kind="mag-lookup", expected=len(charges), got=P.observe(lambda: len(ff))),
+                          observable="magnetic_ff charges", z=z)
+
+
 def run(run: Run) -> int:
     pt = import_repo()
     from periodictable import covalent_radius, crystal_structure, xsf, magnetic_ff, cromermann, core
@@ -1102,9 +1160,11 @@ def run(run: Run) -> int:
         run.disagree("translator-vs-model-parse", dict(kind="selfcheck"), rep[:1], "generated rows")
     sweep(run, "public", pt.elements, exp, src, symbols, cromermann)
     sweep_containers(run, "public", pt.elements, exp, symbols, cromermann)
+    sweep_charge_lookup(run, "public", pt.elements, exp, symbols)
     priv = private_table(mods)
     sweep(run, "private", priv, exp, src, symbols, cromermann)
     sweep_containers(run, "private", priv, exp, symbols, cromermann)
+    sweep_charge_lookup(run, "private", priv, exp, symbols)
     P.drop_private(priv)
     # a private table that was read, revised by its owner and re-initialised with reload=True
     seed = run.rng.randrange(1 << 30)
@@ -1144,6 +1204,16 @@ def replay(data) -> int:
             continue
         if inp.get("kind") == "selfcheck":
             print(run_driver("loader", anc_lines(src) + ["anc_selfcheck"]))
+            continue
+        if inp.get("kind") == "mag-lookup":
+            tbl = pt.elements if inp.get("table") == "public" else private_table(mods)
+            r = Run("C20", "quick", 0)
+            sweep_charge_lookup(r, inp.get("table"), tbl, exp, symbols)
+            for d in r.violations:
+                if d["input"].get("z") == inp.get("z"):
+                    print(" real code fails:", d["what"], {k: d["input"][k] for k in ("expected", "got", "route") if k in d["input"]})
+            if not r.violations:
+                print(" real code: every lookup and the enumeration afterwards hold")
             continue
         if inp.get("kind") == "container":
             tbl = pt.elements if inp.get("table") == "public" else private_table(mods) if inp.get("table") == "private" \
